@@ -18,6 +18,7 @@ import (
 	"github.com/arloliu/go-secs/v2/hsms"
 	"github.com/arloliu/go-secs/v2/hsmsss"
 	"github.com/arloliu/go-secs/v2/logger"
+	"github.com/arloliu/go-secs/v2/secs1"
 	"verif/harness/netsim"
 	"verif/harness/ref/e37"
 )
@@ -287,4 +288,109 @@ func waitState(c hsms.Connection, want hsms.ConnState, d time.Duration) bool {
 
 func ctxT(d time.Duration) (context.Context, context.CancelFunc) {
 	return context.WithTimeout(context.Background(), d)
+}
+
+// s1World is a SECS-I library connection wired to the harness network.
+type s1World struct {
+	nw     *netsim.Net
+	addr   string
+	active bool
+	conn   secs1.Connection
+	ln     *netsim.Listener
+}
+
+type s1Opt struct {
+	active, equip bool
+	device        uint16
+	opts          []secs1.Option
+}
+
+func newS1World(o s1Opt) (*s1World, error) {
+	w := &s1World{nw: netsim.NewNet(), addr: "line:1", active: o.active}
+	opts := []secs1.Option{
+		secs1.WithDialer(func(ctx context.Context, network, address string) (net.Conn, error) {
+			c, err := w.nw.Dial(ctx, w.addr)
+			if err != nil {
+				return nil, err
+			}
+			return c, nil
+		}),
+		secs1.WithListener(func(ctx context.Context, network, address string) (net.Listener, error) {
+			l, err := w.nw.Listen(w.addr)
+			if err != nil {
+				return nil, err
+			}
+			return l, nil
+		}),
+		secs1.WithDeviceID(o.device),
+		secs1.WithConnectionOption(hsms.WithLogger(&capLogger{})),
+	}
+	if o.active {
+		opts = append(opts, secs1.WithActive())
+	} else {
+		opts = append(opts, secs1.WithPassive())
+	}
+	if o.equip {
+		opts = append(opts, secs1.WithEquipment())
+	} else {
+		opts = append(opts, secs1.WithHost())
+	}
+	opts = append(opts, o.opts...)
+	cfg, err := secs1.NewConfig("127.0.0.1", 5000, opts...)
+	if err != nil {
+		return nil, err
+	}
+	c, err := secs1.New(cfg)
+	if err != nil {
+		return nil, err
+	}
+	w.conn = c
+	if o.active {
+		l, err := w.nw.Listen(w.addr)
+		if err != nil {
+			return nil, err
+		}
+		w.ln = l
+	}
+	return w, nil
+}
+
+// lineUp establishes the TCP-level line from the harness side and returns the harness end.
+func (w *s1World) lineUp(d time.Duration) (*netsim.Conn, error) {
+	if !w.active {
+		deadline := time.Now().Add(d)
+		for {
+			c, err := w.nw.Dial(context.Background(), w.addr)
+			if err == nil {
+				return c, nil
+			}
+			if time.Now().After(deadline) {
+				return nil, fmt.Errorf("lineUp: dial: %w", err)
+			}
+			time.Sleep(time.Millisecond)
+		}
+	}
+	type res struct {
+		c   net.Conn
+		err error
+	}
+	ch := make(chan res, 1)
+	ln := w.ln
+	go func() {
+		c, err := ln.Accept()
+		ch <- res{c, err}
+	}()
+	t := time.NewTimer(d)
+	defer t.Stop()
+	select {
+	case r := <-ch:
+		if r.err != nil {
+			return nil, r.err
+		}
+		return r.c.(*netsim.Conn), nil
+	case <-t.C:
+		_ = ln.Close()
+		<-ch
+		return nil, fmt.Errorf("lineUp: no dial from the library within %v", d)
+	}
 }
